@@ -15,14 +15,14 @@ LEVEL = "exploration"
 QUICK_RUNS = 2000
 THOROUGH_SECONDS = 600
 RULE_TEXT = ("Generated workflows (fan-out, queues, retries incl. delay-based stop conditions and positive retry delays, "
-             "collect_events, waiters with timeouts, external events) incl. resumed runs; after EVERY tick the live control-loop "
+             "collect_events, waiters with timeouts, external events) incl. resumed runs and finished contexts that are run again while they still hold work; after EVERY tick the live control-loop "
              "state is compared with rebuild_state_from_ticks(init_state, ticks so far) field by field (timestamps excluded). "
              "Every tick is one evaluation. Non-trivial: the run had >=10 ticks and at least one retry, queued event, "
              "collected event or waiter in its state; distinct = abstract trace shape.")
 COMPONENTS = {"real": ["workflows.* engine: live reducer vs. rebuild_state_from_ticks, BasicRuntime tick log"],
               "stub": ["llama_index_instrumentation"], "sim": ["loop, clock"]}
 ASSUMPTIONS = ["the comparison is between two computations the code defines as equal; no reference model is involved"]
-EXPECTED_PROBES = ["end-of-run-compared", "retry-in-state", "queue-in-state", "collected-in-state", "waiter-in-state", "resumed-run"]
+EXPECTED_PROBES = ["end-of-run-compared", "retry-in-state", "queue-in-state", "collected-in-state", "waiter-in-state", "resumed-run", "finished-context-run-again"]
 LEVEL_TEXT = ("Seeded exploration; differential oracle live-state vs replayed-state after every tick of every run; this is what "
               "ctx.to_dict() and running_steps() are computed from.")
 LEVEL_NOTE = "Trusted: simulator loop; access to the live runner through the runner registry (subclass of _ControlLoopRunner, no behaviour change)."
@@ -153,10 +153,48 @@ def _public_view(world, rid, rebuilt, n_ticks, tick) -> None:
                       f"recorded ticks gives {want[key]}", how="differs")
 
 
+async def drive_rerun(world, spec):
+    """the run is ended early (Fin sent while work is in flight), then the SAME context is run again with a new StartEvent: the second
+    run starts from a state that still holds the first run's queued / in-progress work"""
+    import asyncio as aio
+    from worlds import events as EV
+    from worlds.engine import _finish, build_workflow
+    wf = build_workflow(spec, world)
+    start = EV.Start0(uid=world.uid())
+    world.trace.log("emit", uid=start.uid, ev="Start0", by="ext", via="start", target=None, parent=-1, inv=0)
+    h1 = wf.run(start_event=start, run_id="run1")
+    world.handlers["run1"] = (h1, wf)
+    c1 = aio.ensure_future(world.consume(h1, "c1"))
+    d = sum(world.tape.choice(world.cfg["grid"], "fin1.at") for _ in range(world.tape.rng_int(1, 3, "fin1.n")))
+    sl = aio.ensure_future(aio.sleep(d)) if d else aio.ensure_future(aio.sleep(0))
+    await aio.wait([sl, h1._result_task], return_when=aio.FIRST_COMPLETED)
+    sl.cancel()
+    if not h1.is_done():
+        fin = EV.Fin(uid=world.uid())
+        world.trace.log("emit", uid=fin.uid, ev="Fin", by="ext", via="ext", target=None, parent=-1, inv=0)
+        h1.ctx.send_event(fin)
+    q = world.loop.quiesce()
+    await aio.wait([q, h1._result_task], return_when=aio.FIRST_COMPLETED)
+    if not h1.is_done() or h1._result_task.cancelled() or h1._result_task.exception() is not None:
+        return await _finish(world, spec, h1, c1, [], {"handler": h1, "wf": wf, "rerun": False})
+    await aio.wait([c1], timeout=50)
+    world.probe("finished-context-run-again")
+    world.open_bodies.clear()
+    start2 = EV.Start0(uid=world.uid())
+    world.trace.log("emit", uid=start2.uid, ev="Start0", by="ext", via="start", target=None, parent=-1, inv=0)
+    h2 = wf.run(ctx=h1.ctx, start_event=start2, run_id="run2")
+    world.handlers["run2"] = (h2, wf)
+    c2 = aio.ensure_future(world.consume(h2, "c2"))
+    return await _finish(world, spec, h2, c2, [], {"handler": h2, "wf": wf, "rerun": True})
+
+
 def scenario(world, spec):
-    if world.tape.draw(4, "resume?") == 0:
+    k = world.tape.draw(5, "resume?")
+    if k == 0:
         world.probe("resumed-run")
         return drive_resume(world, spec)
+    if k == 1:
+        return drive_rerun(world, spec)
     return drive_standard(world, spec)
 
 
